@@ -59,6 +59,9 @@ MC_Menu2 == [r \in MC_Reqs2 |->
 MC_MenuQ1 == [r \in MC_Reqs2 |->
    IF r = 1 THEN {D_Produce(TP("t1", 0)), D_List(<<TP("t1", 0), TP("t1", 1)>>)}
    ELSE {D_Meta(<<"t2", "t1">>), D_Commit}]
+MC_MenuQ1b == [r \in MC_Reqs2 |->
+   IF r = 1 THEN {D_Produce(TP("t1", 0))}
+   ELSE {D_Meta(<<"t2", "t1">>), D_Commit}]
 MC_MenuQ2 == [r \in MC_Reqs2 |->
    IF r = 1 THEN {D_Produce(TP("t1", 0))}
    ELSE {D_Fetch(TP("t1", 0)), D_Commit}]
